@@ -1329,6 +1329,23 @@ example :
     ZNC.headRfcText ⟨⟨Date.MAX, ⟨86399, 1500000000⟩⟩, 60⟩ .millis true = asciiBytes "+262143-01-01T00:00:60.500+00:01" := by
   decide +kernel
 
+/-! ### `format` / `format_with_items`: the date specifiers on the two headroom days -/
+
+/-- **format_headroom_dates.**  C12's `numeric_ok` speaks about years `MIN_YEAR ..= MAX_YEAR`; in the headroom day
+the wall-clock date handed to the item formatter (`format_reads_wall_clock`, last two conjuncts) is one of the two
+constants, so every date specifier is settled by kernel evaluation: the item formatter, given `BEFORE_MIN` resp.
+`AFTER_MAX`, prints the text of the calendar's own day — signed year `-262144` / `+262143`, century by floored
+division (`-2622`), two-digit year by Euclidean remainder (`56`), month, day, day of year `366` / `001`, ISO year and
+week (`-262143`-W01 / `+262143`-W01), weekday (Wednesday / Tuesday), Sunday- and Monday-based week numbers, `%F`,
+`%D`, `%x`.  (The expected texts were also observed on the real crate, and the harness oracle `znf.fmt` compares
+them on sampled headroom values; the time and offset specifiers do not look at the date.) -/
+theorem format_headroom_dates :
+    (∀ p ∈ ([("%Y", "-262144"), ("%C", "-2622"), ("%y", "56"), ("%m", "12"), ("%d", "31"), ("%e", "31"), ("%j", "366"), ("%G", "-262143"), ("%g", "57"), ("%V", "01"), ("%u", "3"), ("%w", "3"), ("%a", "Wed"), ("%A", "Wednesday"), ("%b", "Dec"), ("%B", "December"), ("%h", "Dec"), ("%U", "52"), ("%W", "52"), ("%F", "-262144-12-31"), ("%D", "12/31/56"), ("%x", "12/31/56")] : List (String × String)),
+      Format.formatItemsR (some Date.BEFORE_MIN) none none (Strftime.items (asciiBytes p.1)) = Format.wok (asciiBytes p.2)) ∧
+    (∀ p ∈ ([("%Y", "+262143"), ("%C", "2621"), ("%y", "43"), ("%m", "01"), ("%d", "01"), ("%e", " 1"), ("%j", "001"), ("%G", "+262143"), ("%g", "43"), ("%V", "01"), ("%u", "2"), ("%w", "2"), ("%a", "Tue"), ("%A", "Tuesday"), ("%b", "Jan"), ("%B", "January"), ("%h", "Jan"), ("%U", "00"), ("%W", "00"), ("%F", "+262143-01-01"), ("%D", "01/01/43"), ("%x", "01/01/43")] : List (String × String)),
+      Format.formatItemsR (some Date.AFTER_MAX) none none (Strftime.items (asciiBytes p.1)) = Format.wok (asciiBytes p.2)) := by
+  decide +kernel
+
 /-! ### End to end: translated code = specification -/
 
 /-- **gen_wall_clock_sound.**  Composition of the code-translation theorems of Props/GenDateTime.lean (Lean text
